@@ -309,7 +309,7 @@ def normalize_matrix3(matrix):
     row1 = rows[i_row1]
     e_x = (1.0, 0.0, 0.0)
     e_y = (0.0, 1.0, 0.0)
-    e_2 = e_y if scal(row1, e_x) > 0.999 else e_x
+    e_2 = e_y if abs(scal(row1, e_x)) > 0.999 else e_x
     row2 = renorm(vdiff(e_2, renorm(row1, norm=scal(e_2, row1))))
     row3 = vect(row1, row2)
     norm_matrix = matrix.copy()
